@@ -879,6 +879,13 @@ fn fork_scenario(rng: &mut StdRng, sc: usize, out: Box<dyn std::io::Write>, kv: 
             }
         }
     }
+    // a registered script is registered AGAIN from a block below the fork point right before the switch: its stored
+    // number is then below the rollback target while its entries reach above it (seed C03-7)
+    if rng.gen_bool(0.4) {
+        let (sid, is_type, _) = list[rng.gen_range(0..list.len())];
+        let below = rng.gen_range(0..(a_len - depth).max(1)) as u64;
+        env.set_scripts(&mut sim, "partial", &[(sid, is_type, below)]);
+    }
     if rng.gen_bool(0.4) {
         env.restart(&mut sim);
     }
